@@ -1,0 +1,15 @@
+//go:build verif
+
+package neat
+
+// Contracts for the deductive verifier in /verif (govc). Comment-only file.
+
+//@ func NewTraitCopy
+//@   props C06
+//@   uses seq_ext
+//@   requires t != nil
+//@   modifies nothing
+//@   ensures [fresh] fresh(result) && fresh(result.Params)
+//@   ensures [id] result.Id == t.Id
+//@   ensures [params] len(result.Params) == len(t.Params) && (forall i :: 0 <= i && i < len(t.Params) ==> result.Params[i] == t.Params[i])
+//@   ensures [seq] seq(result.Params) == seq(t.Params)
